@@ -14,13 +14,15 @@ def SameSide (s s' : State) : Prop :=
 from the table): extend the tip / stay (not heavier, or below the margin) / reorganize. -/
 inductive Outcome (s : State) (b : Block) (s' : State) : Res → Prop
   | extend (t : Block) (rest : List Block) : s.best = t :: rest → b.parent = t.id →
-      s'.best = b :: s.best → s'.fin = s.fin → Outcome s b s' .main
+      s'.best = b :: s.best → s'.fin = s.fin → s'.txIdx = addTxs s.txIdx b → Outcome s b s' .main
   | stay (t : Block) (rest : List Block) (tt tb : Nat) : s.best = t :: rest → b.parent ≠ t.id →
       s.tds t.id = some tt → s.tds b.id = some tb → (tb ≤ tt ∨ b.height < s.fin + s.margin) →
-      s'.best = s.best → s'.fin = s.fin → Outcome s b s' .side
+      s'.best = s.best → s'.fin = s.fin → s'.txIdx = s.txIdx → Outcome s b s' .side
   | reorg (t : Block) (rest : List Block) (tt tb : Nat) : s.best = t :: rest → b.parent ≠ t.id →
       s.tds t.id = some tt → s.tds b.id = some tb → tt < tb → s.fin + s.margin ≤ b.height →
       s'.best = chainTo s.index b.height b → s'.fin = (resetFin s (findFork s b)).fin →
+      (∃ f pre1 pre2 rf, chainTo s.index b.height b = pre1 ++ f :: rf ∧ s.best = pre2 ++ f :: rf ∧
+        s'.txIdx = pre1.reverse.foldl addTxs (pre2.foldl delTxs s.txIdx)) →
       Outcome s b s' .main
 
 theorem connectBestChain_spec {s : State} (hi : Inv s) {b p : Block} (hb : b ∈ s.index)
@@ -33,20 +35,20 @@ theorem connectBestChain_spec {s : State} (hi : Inv s) {b p : Block} (hb : b ∈
   · -- extend the tip
     have hpt : p = t := hi.uniq p hp t htin (hpid.trans hpar)
     subst hpt
-    obtain ⟨s', hc, hi', hbest', hsr⟩ := connectBlock_inv hi hb hbest hpar hh
+    obtain ⟨s', hc, hi', hbest', hsr, htx⟩ := connectBlock_inv hi hb hbest hpar hh
     refine ⟨s', .main, ?_, hi', ⟨hsr.1, hsr.2.1, hsr.2.2.1, hsr.2.2.2.1, hsr.2.2.2.2.2.1, hsr.2.2.2.2.2.2⟩,
-      .extend p rest hbest hpar hbest' hsr.2.2.2.2.1⟩
+      .extend p rest hbest hpar hbest' hsr.2.2.2.2.1 htx⟩
     simp only [connectBestChain, hbest, hpar, if_true, hc]
   · obtain ⟨tt, htt⟩ := Option.isSome_iff_exists.mp (hi.tdSome t htin)
     have hptd : s.tds b.parent = some tp := by rw [← hpid]; exact htp
     by_cases hside : b.diff + tp ≤ tt ∨ b.height < s.fin + s.margin
     · obtain ⟨f, _, _, _, hff, _⟩ := findFork_spec hi hb
       refine ⟨s, .side, ?_, hi, ⟨rfl, rfl, rfl, rfl, rfl, rfl⟩,
-        .stay t rest tt (b.diff + tp) hbest hpar htt hbtd hside rfl rfl⟩
+        .stay t rest tt (b.diff + tp) hbest hpar htt hbtd hside rfl rfl rfl⟩
       simp only [connectBestChain, hbest, hpar, if_false, htt, hptd, hside, if_true, hff]
-    · obtain ⟨s', hr, hi', hbest', h1, h2, h3, h4, h5, h6, h7⟩ := reorgTo_spec hi hb
+    · obtain ⟨s', hr, hi', hbest', h1, h2, h3, h4, h5, h6, h7, h8⟩ := reorgTo_spec hi hb
       refine ⟨s', .main, ?_, hi', ⟨h1, h2, h3, h4, h5, h6⟩,
-        .reorg t rest tt (b.diff + tp) hbest hpar htt hbtd (by omega) (by omega) hbest' h7⟩
+        .reorg t rest tt (b.diff + tp) hbest hpar htt hbtd (by omega) (by omega) hbest' h7 h8⟩
       simp only [connectBestChain, hbest, hpar, if_false, htt, hptd, hside, hr]
 
 /-- `Inv` after adding a fresh block whose parent is indexed (store + index). -/
@@ -56,7 +58,8 @@ theorem Inv.addBlock {s : State} (hi : Inv s) {b p : Block} (hp : p ∈ s.index)
     ∃ s1 tp, storeBlock s b = some s1 ∧ s.tds p.id = some tp ∧ Inv (addIndex s1 b) ∧
       (addIndex s1 b).index = b :: s.index ∧ (addIndex s1 b).orphans = s.orphans ∧
       (addIndex s1 b).best = s.best ∧ (addIndex s1 b).fin = s.fin ∧ (addIndex s1 b).margin = s.margin ∧
-      (addIndex s1 b).recSeq = s.recSeq ∧ (addIndex s1 b).tds = upd s.tds b.id (some (b.diff + tp)) := by
+      (addIndex s1 b).recSeq = s.recSeq ∧ (addIndex s1 b).tds = upd s.tds b.id (some (b.diff + tp)) ∧
+      (addIndex s1 b).txIdx = s.txIdx := by
   obtain ⟨tp, htp⟩ := Option.isSome_iff_exists.mp (hi.tdSome p hp)
   have hst : s.stored b.id = none := by
     cases h : s.stored b.id with
@@ -66,7 +69,7 @@ theorem Inv.addBlock {s : State} (hi : Inv s) {b p : Block} (hp : p ∈ s.index)
       exact absurd hxid (hfresh x hx)
   have hptd : s.tds b.parent = some tp := by rw [← hpid]; exact htp
   refine ⟨{ s with stored := upd s.stored b.id (some b), tds := upd s.tds b.id (some (b.diff + tp)) }, tp,
-    ?_, htp, ?_, rfl, rfl, rfl, rfl, rfl, rfl, rfl⟩
+    ?_, htp, ?_, rfl, rfl, rfl, rfl, rfl, rfl, rfl, rfl⟩
   · simp only [storeBlock, hst, Option.isSome_none, Bool.false_eq_true, if_false, hptd]
   · have hne : ∀ x ∈ s.index, x.id ≠ b.id := hfresh
     constructor
@@ -147,7 +150,7 @@ theorem maybeAcceptBlock_spec {s : State} (hi : Inv s) {b : Block} (hfresh : ∀
         maybeAcceptBlock s b = (s', r) ∧ Inv s0 ∧ Inv s' ∧
         s0.index = b :: s.index ∧ s0.orphans = s.orphans ∧ s0.best = s.best ∧ s0.fin = s.fin ∧
         s0.margin = s.margin ∧ s0.recSeq = s.recSeq ∧ s0.tds = upd s.tds b.id (some (b.diff + tp)) ∧
-        SameSide s0 s' ∧ Outcome s0 b s' r) := by
+        s0.txIdx = s.txIdx ∧ SameSide s0 s' ∧ Outcome s0 b s' r) := by
   cases hl : lookup s.index b.parent with
   | none =>
     left
@@ -156,10 +159,10 @@ theorem maybeAcceptBlock_spec {s : State} (hi : Inv s) {b : Block} (hfresh : ∀
     obtain ⟨hp, hpid⟩ := lookup_some hl
     by_cases hh : b.height = p.height + 1
     · right
-      obtain ⟨s1, tp, hst, htp, hi0, e1, e2, e3, e4, e5, e6, e7⟩ := hi.addBlock hp hpid hh hfresh hforph
+      obtain ⟨s1, tp, hst, htp, hi0, e1, e2, e3, e4, e5, e6, e7, e8⟩ := hi.addBlock hp hpid hh hfresh hforph
       obtain ⟨s', r, hc, hi', hss, hout⟩ := connectBestChain_spec hi0 (b := b) (p := p)
         (by rw [e1]; simp) (by rw [e1]; exact List.mem_cons_of_mem _ hp) hpid hh
-      refine ⟨p, tp, addIndex s1 b, s', r, hp, hpid, hh, htp, ?_, hi0, hi', e1, e2, e3, e4, e5, e6, e7, hss, hout⟩
+      refine ⟨p, tp, addIndex s1 b, s', r, hp, hpid, hh, htp, ?_, hi0, hi', e1, e2, e3, e4, e5, e6, e7, e8, hss, hout⟩
       simp only [maybeAcceptBlock, hl, hh, ne_eq, not_true_eq_false, if_false, hst, hc]
     · left
       exact ⟨.heightNoMatch, by simp only [maybeAcceptBlock, hl, ne_eq, hh, not_false_eq_true, if_true],
